@@ -460,6 +460,10 @@ var c01StmtAlphabet = []string{
 	"w = 1; func bump() { w = w + 10; 0 }; func t1() { [w, bump(), w] }; println(t1(), w)", "w = 1; func bump() { w = w + 10; 0 }; func g2(x, y) { [x, y] }; func t2() { g2(w, bump()) }; println(t2())",
 	"w = 1; func bump() { w = w + 10; 0 }; func t3() { {w: bump(), \"k\": w} }; println(t3())", "w = 1; func bump() { w = w + 10; 0 }; func t4() { w + bump() + w }; println(t4())",
 	"w = 3; func fr() { t = 0; for i = 1:w { t = t + i }; t }; println(fr())", "w = 2; func fr2() { for i = w:v + 2 { println(i) } }; fr2()",
+	"w = 1; func bump() { w = w + 10; 0 }; func t5() { println(w, bump(), w); print(w, bump(), w, \"\\n\") }; t5()", "w = 1; func bump() { w = w + 10; 0 }; func t6() { error(w, bump(), w) }; println(catch(t6()).value)",
+	// an index expression with a side effect on the very variable being assigned
+	"w = [0, 0, 0]; func nxi() { w = w + [9]; 1 }; w[nxi()] = 5; println(w)", "w = []; func slot() { w = w + [0]; len(w) - 1 }; w[slot()] = \"a\"; w[slot()] = \"b\"; println(w)",
+	"w = {\"n\": 0}; func nk() { w.n = w.n + 1; w.n }; w[nk()] = \"x\"; println(w)", "w = [0, 0]; func() { w[func() { w = w + [7]; 0 }()] = 1 }(); println(w)",
 	// (known finding C01-K1: the right-hand side of `for v = f()` is evaluated twice before the first iteration)
 	"w = 0; func nx9() { w = w + 1; w < 3 }; for ok9 = nx9() { println(ok9, w) }",
 	// closures made by one factory: each has its own captured variables, also when they call each other
